@@ -13,7 +13,17 @@ DATA_ATTR = {"plain": "#[sv::data]", "opt": "#[sv::data(opt)]", "raw": "#[sv::da
              "inst": "#[sv::data(instantiate)]", "instopt": "#[sv::data(instantiate, opt)]"}
 
 
+def legacy_method_src(prog, m):
+    ok = "true" if m["outcome"] == "ok" else "false"
+    return ("        #[sv::msg(reply)]\n        #[allow(deprecated)]\n"
+            "        fn reply(&self, ctx: sylvia::types::ReplyCtx, reply: Reply) -> Result<Response, ContractError> {\n"
+            "            rec::reply_handler(\"%s\", \"reply\", rec::ctx_reply_legacy(&ctx), serde_json::json!({\"t\":\"-\"}), rec::reply_proj(&reply), vec![]);\n"
+            "            rec::touch(ctx.deps.storage, \"reply\");\n            rec::resp(\"reply\", 7, %s)\n        }\n") % (prog["id"], ok)
+
+
 def method_src(prog, m):
+    if prog.get("family") == "legacy":
+        return legacy_method_src(prog, m)
     params = []
     recs = []
     second = '"none"'
@@ -67,7 +77,7 @@ def program_src(prog):
              "    use sylvia::cw_utils::MsgInstantiateContractResponse;\n"
              "    use verif_rrt::{rec, serde_json, ContractError, Deps, HandlerErr, Nested, ReplyVt};\n\n"
              "    pub struct Ctr;\n\n"
-             "    #[sylvia::entry_points]\n    #[sylvia::contract]\n    #[sv::error(ContractError)]\n    #[sv::features(replies)]\n"
+             "    #[sylvia::entry_points]\n    #[sylvia::contract]\n    #[sv::error(ContractError)]\n" + ("" if prog.get("family") == "legacy" else "    #[sv::features(replies)]\n") +
              "    impl Ctr {\n        pub const fn new() -> Self {\n            Ctr\n        }\n"
              "        #[sv::msg(instantiate)]\n        fn instantiate(&self, ctx: InstantiateCtx) -> Result<Response, HandlerErr> {\n"
              "            Ok(Response::new())\n        }\n")
@@ -77,7 +87,7 @@ def program_src(prog):
     o.append("    fn ids() -> Vec<(&'static str, u64)> {\n        vec![%s]\n    }\n\n" % ", ".join(
         '("%s", sv::%s)' % (h["h"], h["const"]) for h in prog["handlers"]))
     o.append("    fn build(h: &str, recv: &str, val: u32) -> Option<Result<(SubMsg<Empty>, bool, Vec<serde_json::Value>), String>> {\n"
-             "        use sv::SubMsgMethods;\n        match (h, val) {\n")
+             "        %s\n        match (h, val) {\n" % ("" if prog.get("family") == "legacy" else "use sv::SubMsgMethods;"))
     for h in prog["handlers"]:
         for val in (0, 1):
             args = pay_args(h["payload"], val)
@@ -92,7 +102,8 @@ def program_src(prog):
     o.append("            _ => None,\n        }\n    }\n\n")
     o.append("    fn dispatch(via: &str, deps: DepsMut, env: Env, reply: Reply) -> Result<Response, serde_json::Value> {\n"
              "        match via {\n"
-             "            \"fn\" => sv::dispatch_reply(deps, env, reply, Ctr::new()).map_err(|e| verif_rrt::proj_err(&e)),\n"
+             "            \"fn\" => %s.map_err(|e| verif_rrt::proj_err(&e)),\n" % (
+                 "entry_points::reply(deps, env, reply)" if prog.get("family") == "legacy" else "sv::dispatch_reply(deps, env, reply, Ctr::new())") +
              "            \"ep\" => entry_points::reply(deps, env, reply).map_err(|e| verif_rrt::proj_err(&e)),\n"
              "            _ => <dyn sylvia::cw_multi_test::Contract<Empty, Empty>>::reply(&Ctr::new(), deps, env, reply).map_err(|e| verif_rrt::proj_anyhow(&e)),\n"
              "        }\n    }\n\n")
